@@ -660,3 +660,13 @@ pub fn level3_full() -> BinaryWith {
     let base = LevelFamily { name: "unary level 2 of the quick core".into(), u: q.u.clone(), l1: q.l1.clone(), uops: q.uops.clone(), lim: 0, only_with: None };
     BinaryWith { small: q.l1.clone(), base: Box::new(base), stride: 1, offset: n1 }
 }
+
+/// the small terms of the quick level-3 slice that are not level-1 terms, against every unary level-2 term
+pub fn level3_extra() -> BinaryWith {
+    let q = core_quick();
+    let n1 = q.l1.len();
+    let r = |l: u8, h: u8| Rc::new(P::Rng(l, h));
+    let small: Vec<Rc<P>> = vec![Rc::new(P::AllChar), Rc::new(P::Concat(r(1, 1), Rc::new(P::Concat(Rc::new(P::Plus(r(0, 5))), r(2, 2)))))];
+    let base = LevelFamily { name: "unary level 2 of the quick core".into(), u: q.u.clone(), l1: q.l1.clone(), uops: q.uops.clone(), lim: 0, only_with: None };
+    BinaryWith { small, base: Box::new(base), stride: 1, offset: n1 }
+}
